@@ -60,8 +60,10 @@ def generate(seed: int, tier: str = "quick") -> dict:
         tr = {"kind": "file"}
     elif roll < 0.42:
         tr = {"kind": "capfile", "cap": r_sch.choice((1, 2, 3, 7, 16, 20, 64))}
-    elif roll < 0.45:
+    elif roll < 0.44:
         tr = {"kind": "pipe"}
+    elif roll < 0.47:
+        tr = {"kind": "bytesio"}
     elif roll < 0.8:
         tr = common.draw_transport(r_sch, wire_len, spans, kinds=("socket",))
         cfg["bufsize"] = r_sch.choice(sched.BUFSIZES)
@@ -105,6 +107,7 @@ def _drive(wire, cfg, tr):
     late = 0  # re-entries made after the peer had sent its last byte
     by_iteration = tr.get("redrive") == "iter"
     try:
+        core.VirtualClock.source = tp if hasattr(tp, "now") else None
         ubr = UBXReader(tp, **kw)
         while ends <= rereads:
             if ends and hasattr(tp, "idle"):
@@ -130,6 +133,8 @@ def _drive(wire, cfg, tr):
         out.hang = str(err)
     except Exception as err:  # pylint: disable=broad-except
         out.exc = canon_exc(err)
+    finally:
+        core.VirtualClock.source = None
     return out, late
 
 
